@@ -239,8 +239,11 @@ def check_statics(ctx, F):
 
 
 def check_copy_complete(ctx, F):
-    for t in F.types:
-        if not t.get("complete") or t.get("dependent") or not t.get("inroots"):
+    # instantiated records, and the class-template *patterns* as well: a copy / move constructor no witness instantiates (the library's
+    # InstanceT cannot be move-constructed by a user program at all) still has its member-initialiser list in the pattern
+    done = set()
+    for t in sorted(F.types, key=lambda t: bool(t.get("pattern"))):
+        if not t.get("complete") or not t.get("inroots") or (t.get("dependent") and not t.get("pattern")):
             continue
         for c in t.get("ctors", []):
             if not (c.get("copy") or c.get("move")) or not c.get("user"):
@@ -248,6 +251,9 @@ def check_copy_complete(ctx, F):
             b = F.body(c["f"])
             if b is None:
                 continue
+            if t.get("pattern") and ((t.get("tmpl") or t["name"]), bool(c.get("copy"))) in done:
+                continue
+            done.add(((t.get("tmpl") or t["name"]), bool(c.get("copy"))))
             name = t.get("tmpl") or t["name"]
             kind = "copy" if c.get("copy") else "move"
             site = "%s::%s(%s)" % (name, name, kind)
